@@ -42,6 +42,9 @@ func Normalize(zone string) (string, error) {
 	if !certmagic.SubjectQualifiesForPublicCert(trimmed) {
 		return "", fmt.Errorf("acme: invalid zone for acme certificate")
 	}
+	if certmagic.SubjectIsIP(trimmed) {
+		return "", fmt.Errorf("acme: ip address is not supported")
+	}
 	if strings.Contains(trimmed, "*") {
 		return "", fmt.Errorf("acme: wildcard zone is not supported")
 	}
@@ -52,6 +55,11 @@ func Normalize(zone string) (string, error) {
 	invalid := nonDnsRegex.FindStringIndex(uni)
 	if len(invalid) > 0 {
 		return "", fmt.Errorf("acme: zone contains invalid dns characters")
+	}
+	// the result must be canonical: converting it again changes nothing and it still
+	// qualifies (an ASCII-only or empty punycode label decodes to something else)
+	if again, err := idna.ToASCII(uni); err != nil || again != uni || !certmagic.SubjectQualifiesForPublicCert(uni) {
+		return "", fmt.Errorf("acme: zone is not in canonical form")
 	}
 	return uni, nil
 }
